@@ -39,7 +39,7 @@ var ctx = context.Background()
 // fixture: the ACL log and who may write where.
 type fixture struct {
 	sim  *Sim
-	recs []string // r0..r6 record ids
+	recs []string // r0..r10 record ids
 	root *treechangeproto.RawTreeChangeWithId
 	// canWrite[author][record index]
 	canWrite map[string][]bool
@@ -75,13 +75,24 @@ func buildFixture(seed int64) *fixture {
 	submit("r4 remove W", "O", CAccountRemove(ReadKeyChange(mp, accs, nil), s.Acc("W")))
 	submit("r5 re-add W writer", "O", CAccountsAdd(Writer, s.Acc("W")))
 	submit("r6 make X admin", "O", CAccountsAdd(Admin, s.Acc("X")))
-	//                    r0     r1     r2     r3     r4     r5     r6
+	// records that name W more than once: what W may do at such a record is what the LAST entry says
+	submit("r7 W reader then writer (two contents)", "O", CPermissionChange(s.Acc("W"), Reader), CPermissionChange(s.Acc("W"), Writer))
+	submit("r8 W writer then reader (two contents)", "O", CPermissionChange(s.Acc("W"), Writer), CPermissionChange(s.Acc("W"), Reader))
+	submit("r9 W writer then reader (one content, two entries)", "O", CPermissionChanges(
+		&aclrecordproto.AclAccountPermissionChange{Identity: s.Acc("W").Proto, Permissions: Writer},
+		&aclrecordproto.AclAccountPermissionChange{Identity: s.Acc("W").Proto, Permissions: Reader}))
+	submit("r10 W reader, writer, reader, writer (one content)", "O", CPermissionChanges(
+		&aclrecordproto.AclAccountPermissionChange{Identity: s.Acc("W").Proto, Permissions: Reader},
+		&aclrecordproto.AclAccountPermissionChange{Identity: s.Acc("W").Proto, Permissions: Writer},
+		&aclrecordproto.AclAccountPermissionChange{Identity: s.Acc("W").Proto, Permissions: Reader},
+		&aclrecordproto.AclAccountPermissionChange{Identity: s.Acc("W").Proto, Permissions: Writer}))
+	//                    r0     r1     r2     r3     r4     r5     r6     r7     r8     r9     r10
 	f.canWrite = map[string][]bool{
-		"O": {true, true, true, true, true, true, true},
-		"W": {false, true, false, true, false, true, true},
-		"N": {false, false, false, false, false, false, false},
-		"G": {false, false, false, false, false, false, false},
-		"X": {false, false, false, false, false, false, true},
+		"O": {true, true, true, true, true, true, true, true, true, true, true},
+		"W": {false, true, false, true, false, true, true, true, false, false, true},
+		"N": {false, false, false, false, false, false, false, false, false, false, false},
+		"G": {false, false, false, false, false, false, false, false, false, false, false},
+		"X": {false, false, false, false, false, false, true, true, true, true, true},
 	}
 	// the tree's root is created by the owner when the ACL holds only its root record
 	rootAcl, err := s.View(s.Acc("O"), 1, nil)
@@ -257,7 +268,7 @@ func TestCheck(t *testing.T) {
 	vk.Main(t, vk.Spec{
 		Prop:  "C02",
 		Level: "exploration",
-		Rule: "A1: every author (owner, writer with a demote/promote/remove/re-add history, never-member, guest, late admin) x every cited ACL record (r0..r6, unknown) x every record cited by the parent change, built with the real ChangeBuilder and delivered alone and inside [valid, case, valid]; A2: for accepted changes every byte x 6 values (thorough 255), every truncation, every id character, every field of RawTreeChange / TreeChange edited without re-signing (with and without recomputed id), and re-signed edits of identity / ACL head / parents / snapshot base, each alone and mid-batch; " +
+		Rule: "A1: every author (owner, writer with a demote/promote/remove/re-add history, never-member, guest, late admin) x every cited ACL record (r0..r10 — r7..r10 name the writer two to four times in one record, the last entry decides — and an unknown one) x every record cited by the parent change, built with the real ChangeBuilder and delivered alone and inside [valid, case, valid]; A2: for accepted changes every byte x 6 values (thorough 255), every truncation, every id character, every field of RawTreeChange / TreeChange edited without re-signing (with and without recomputed id), and re-signed edits of identity / ACL head / parents / snapshot base, each alone and mid-batch; " +
 			"evaluations = AddRawChanges calls judged; distinct_nontrivial = distinct (family, author, cited record, parent record | mutation class, verdict) classes",
 		Assumptions: []string{
 			"the tree's ACL view belongs to a non-member observer with the fully validating verifier, so ACL records may carry placeholder key material; tree content is unencrypted",
